@@ -36,11 +36,9 @@ void register_rect_d()
     auto const r3 = make_ops(all_over<1, 3>({-1, 0, 1, 2}));
     auto const c3 = make_ops(all_over<3, 1>({-1, 0, 1, 2}));
     product_pairs_all<1, 3, 1>(r3, c3, 0, 1);
-    product_pairs_all<3, 1, 3>(c3, r3, 0, 1);
     auto const r4 = make_ops(all_over<1, 4>(pm1));
     auto const c4 = make_ops(all_over<4, 1>(pm1));
     product_pairs_all<1, 4, 1>(r4, c4, 0, 1);
-    product_pairs_all<4, 1, 4>(c4, r4, 0, 1);
   });
   vrt::shard("rect/matvec/row_column", [] {
     matvec_all<1, 4>(make_ops(all_over<1, 4>(pm1)), all_vectors<4>(-1, 1));
@@ -50,7 +48,6 @@ void register_rect_d()
   vrt::shard("rect/assoc/row_column", [] {
     int const nz = vrt::thorough() ? 2 : 1;
     rect_assoc<1, 3, 3, 1>(make_ops(all_over<1, 3>(pm1)), make_ops(structured<3, 3>(nz)), make_ops(all_over<3, 1>(pm1)));
-    rect_assoc<3, 1, 1, 3>(make_ops(all_over<3, 1>(pm1)), make_ops(all_over<1, 1>(range(-2, 2))), make_ops(all_over<1, 3>(pm1)));
   });
 }
 }
